@@ -174,4 +174,13 @@ example : let f : Array (Cx ℝ) := #[⟨1, 0⟩, ⟨0, 1⟩, ⟨2, 0⟩, ⟨0, 
   intro f r
   exact ss_ii_mem_unit 2 r r rfl rfl f f f rfl rfl rfl (by norm_num [f, jsiNorm, sumList, Cx.normSq]) _
 
+/-- the hypotheses of `visibility_eq_purity` are satisfiable (constant amplitude on a 2×2 grid with
+unequal axes) -/
+example : ∃ p vsi, twoSourceVisibilities true (⟨⟨1, 2, 2⟩, ⟨3, 5, 2⟩⟩ : Steps2D ℝ) ⟨⟨1, 2, 2⟩, ⟨3, 5, 2⟩⟩
+    (twoSrcOf (fun _ _ => ⟨1, 0⟩) (fun _ _ => ⟨1, 0⟩) ⟨⟨1, 2, 2⟩, ⟨3, 5, 2⟩⟩ ⟨⟨1, 2, 2⟩, ⟨3, 5, 2⟩⟩) 0 0 0 =
+      .ok (p, p, vsi) := by
+  obtain ⟨vsi, h⟩ := visibility_eq_purity (fun _ _ => (⟨1, 0⟩ : Cx ℝ)) 2 ⟨⟨1, 2, 2⟩, ⟨3, 5, 2⟩⟩ rfl rfl
+    (by norm_num [sampled, Steps2D.len, jsiNorm, sumList, Cx.normSq, List.range, List.range.loop]) 0 0 0
+  exact ⟨_, vsi, h⟩
+
 end Spdc.Props.C10
